@@ -188,6 +188,13 @@ class Sched:
                                                              'done': 0, 'acqs': self.acq_count.get(self.tid(), 0)}
                 return self.line_tracer
             key = (code.co_qualname, fn.rsplit('/', 1)[-1])
+            if code.co_qualname == 'XsdElement.collect_key_fields':
+                # a reader of the shared identity tables: every entry it can find must be complete (Publish.v)
+                elem = frame.f_locals.get('self')
+                for identity in tuple(getattr(elem, 'selected_by', ())):
+                    for e, sels in list(identity.elements.items()):
+                        if len(sels) != len(identity.fields):
+                            self.events.append(('incomplete_entry', self.tid(), str(identity.name), str(e.name), len(sels), len(identity.fields)))
             if key in MILESTONES:
                 bf = self._build_frame_of(frame)
                 st = bf is not None and self.build_state.get((self.tid(), id(bf)))
@@ -498,6 +505,13 @@ def evaluate(ctx, cases):
             continue
         if not o['globals_equal'] or not o['built']:
             ctx.violation('after the racing build the global components differ from a sequential build (built=%s)' % o['built'], rep)
+            continue
+        inc = [e for e in (o.get('events') or []) if e[0] == 'incomplete_entry']
+        if inc:
+            e = inc[0]
+            ctx.violation('thread %s enters collect_key_fields while the shared entry of element %s in the identity constraint %s holds %d of %d '
+                          'field selectors: a reader can find an incomplete entry (C18_atomic_publication_complete) [seed %d]'
+                          % (e[1], e[3], e[2], e[4], e[5], c['seed']), dict(rep, theorem='C18_atomic_publication_complete', events=inc[:5]))
             continue
         if c['mode'] != 'controlled' or c.get('prebuilt'):
             continue        # (a schema built before the threads start has no build protocol to observe)
